@@ -329,7 +329,11 @@ func runFnItem(c *core.Ctx, ctx context.Context, st *fnStats, id string, sig fnS
 
 	var judgeBatch func(sub [][]octosql.Value, single bool)
 	judgeBatch = func(sub [][]octosql.Value, single bool) {
-		c.Eval(1)
+		if !single {
+			// one evaluation per argument row tried (a batch is one query over many rows; rows re-run
+			// singly after a failed batch are not counted twice)
+			c.Eval(len(sub))
+		}
 		p, perr := pipex.Plan(ctx, sql, mkDB(sub), optimize)
 		if perr != nil {
 			if perr.Stage == "panic" {
